@@ -398,7 +398,6 @@ def compare(ctx, point, frames, Packet, cbase):
         ctx.hist(point, kind)
         ctx.count((point, f), nontrivial=kind not in ("other",))
         if a != b:
-            pt["disagreements"] += 1
             ctx.disagree(point, {"frame": f.hex()[:4000]}, a[:600], b[:600])
 
 
@@ -477,7 +476,6 @@ def corr_frames(ctx, n_struct, n_valid):
             pt["cases"] += 1
             ctx.hist("recursion-boundary", f"{name}:{lo}")
             if a != b:
-                pt["disagreements"] += 1
                 ctx.disagree("recursion-boundary", {"chain": name, "n": n, "boundary": [lo, hi]}, a[:80], b[:80])
     # (d) the shortest inputs per exception kind, on the real code and in the model at the tool's own depth
     pt = ctx.point("examples")
@@ -486,7 +484,6 @@ def corr_frames(ctx, n_struct, n_valid):
         b = ctx.driver("ingest", [f"frame {hx(f)}"])[0]
         pt["cases"] += 1
         if not (a == b == "err:" + kind):
-            pt["disagreements"] += 1
             ctx.disagree("examples", {"kind": kind, "frame": f.hex()[:200]}, a, b)
 
 
@@ -609,7 +606,6 @@ def corr_files(ctx, n):
         ctx.hist("capture-file", what + ("/legacy" if lg else "/pcapng") + ("/" + a.split(":")[1][:24] if a.startswith("err") else "/ok"))
         ctx.count(("file", d), nontrivial=not a.startswith("err:container") and a != "-")
         if a != b:
-            pt["disagreements"] += 1
             ctx.disagree("capture-file", {"file": d.hex()[:6000], "legacy": lg, "c": c, "what": what}, a[:1500], b[:1500])
 
 
